@@ -1,5 +1,5 @@
 import Sucds.Model.Rank9
-import Sucds.Props.C14
+import Sucds.Proofs.C14Pop
 import Sucds.Proofs.BitVector
 set_option linter.unusedSimpArgs false
 set_option linter.unusedVariables false
